@@ -101,6 +101,47 @@ CHECKS['C18'] = dict(
     note='urllib.parse, json, html trusted. Availability of is_valid/compact/format on valid numbers is taken from C01/C04; their known findings '
          '(int() limit) show up here as a listed finding.',
     technique='AST contracts (typing, taint) + return-kind inference + bounded replay through the real application')
+CHECKS['C05'] = dict(
+    category='proof', design_ref='DESIGN.md §C05',
+    text='The generator / payload / check-position relation is read off the comparison in validate() (or, where validate() has none, from the '
+         'usual conventions confirmed on the corpus). On every accepting path of validate(): the generated character is the one present, the '
+         'generator does not depend on it, and replacing it by any other alphanumeric character makes the symbolic re-run of validate() raise on '
+         'every path.',
+    note='Completion (payload + generated check is never a checksum error) is a bounded stand-in on mutated corpus payloads. Formats with documented '
+         'alternative check characters are exempt from the alteration obligation. ' + _VF_NOTE,
+    technique='symbolic closures (generator, altered re-validation) under each accepting path condition, z3')
+CHECKS['C07'] = dict(
+    category='proof', design_ref='DESIGN.md §C07',
+    text='validate() of 18 international identifier modules and an independent transcription of the published rules (contracts/specs.py) are '
+         'executed symbolically on the same unknown input in one path context, per compact length 0..40 and for the tail; every joint path must have '
+         'the same outcome and canonical form.',
+    note='Lengths whose joint exploration exceeds the budget (ISIN, CUSIP, FIGI, SEDOL, most IBAN lengths in the quick tier) are undecided and '
+         'covered by a bounded differential on corpus neighbours; Bitcoin is bounded only. The specs share compact(), registries, country lists and '
+         'the ISO 7064 algorithms (C06) with the library. Whether the transcription is the right reading of a standard is outside any tool.',
+    technique='relational symbolic execution of code and spec function, z3')
+CHECKS['C12'] = dict(
+    category='proof', design_ref='DESIGN.md §C12',
+    text='Every getter discovered mechanically is executed symbolically on the value of every accepting path of validate(), with a universally '
+         'quantified system date: it returns or raises a ValidationError; a returned date agrees with get_birth_year/month and, for ten formats '
+         'with an unambiguous layout (contracts/birthdates.py), with the date digits and century marker of the number; gender is M/F; split() '
+         'parts concatenate to the number.',
+    note='Getters that look up large registries are undecided (contract needed) and covered by the corpus run only. ' + _VF_NOTE,
+    technique='symbolic closures under accepting path conditions, builtin contracts (datetime.date), z3')
+CHECKS['C16'] = dict(
+    category='other', design_ref='DESIGN.md §C16',
+    text='Codec lemmas per (format, type) of the GS1 registry: str/int codecs executed symbolically for every admitted length, date and decimal '
+         'codecs evaluated exhaustively (or on a dense sample) on the real functions; framing lemmas (prefix-free AI set, fixed elements encoded at '
+         'full length). Level other because the composition of several elements is bounded (pairs in both orders, hand-built strings, separators).',
+    note='Composition is a bounded stand-in. Formats the library cannot size (C11 findings) are excluded from composition.',
+    technique='symbolic codec lemmas + exhaustive evaluation + bounded composition')
+CHECKS['C17'] = dict(
+    category='proof', design_ref='DESIGN.md §C17',
+    text='On every accepting path of validate() of the listed modules, for every position a fresh same-class character (or the swap of two adjacent '
+         'different digits, where claimed) is substituted and validate() is re-run symbolically: every path must raise. The C06 theorems are the '
+         'contract of the generic checksum() functions, so the obligation for delegating formats is the structural one.',
+    note='Positions where z3 stays unknown within the budget are undecided (mostly the hybrid Mod 11-10 formats) and covered by the exhaustive '
+         'neighbourhood of corpus numbers (bounded). ' + _VF_NOTE,
+    technique='relational symbolic closures + C06 lemmas as callee contracts, z3')
 PENDING = {
 }
 ALL = ['C%02d' % i for i in range(1, 19)]
